@@ -10,6 +10,25 @@ open NA.Gate.Spec
 
 /-! ## structure of the orchestration -/
 
+theorem exec_seq (env : Env) (p q : Prog) (st : St) : exec env (p ;; q) st = exec env q (exec env p st) := rfl
+theorem exec_call (env : Env) (f : String) (p : Prog) (st : St) : exec env (.call f p) st = exec env p st := rfl
+theorem exec_block (env : Env) (p : Prog) (st : St) : exec env (.block p) st = exec env p st := rfl
+theorem exec_note (env : Env) (k t : String) (st : St) : exec env (.note k t) st = st := rfl
+theorem exec_defn (env : Env) (k : String) (p : Prog) (st : St) : exec env (.defn k p) st = st := rfl
+theorem exec_nop (env : Env) (st : St) : exec env .nop st = st := rfl
+theorem exec_send (env : Env) (a b : String) (o : Out) (fm : FaultMode) (st : St) :
+    exec env (.send a b o fm) st = sendStep env o fm st := rfl
+
+/-- the reply after a request, when the run was going -/
+theorem sendStep_running (env : Env) (o : Out) (fm : FaultMode) (st : St) (h : st.status = .running) :
+    sendStep env o fm st =
+      match env.dev st.trace o with
+      | .fault why => { st with trace := st.trace ++ [o], reply := .fault why, status := faultStatus fm why }
+      | r => { st with trace := st.trace ++ [o], reply := r, connected := st.connected || o == .connect } := by
+  unfold sendStep
+  simp only [h, Status.isRunning_running, if_true]
+  cases env.dev st.trace o <;> rfl
+
 theorem compareDevice_exec (env : Env) (load gc : Prog) (st : St) :
     exec env (compareDeviceP load gc) st = exec env gc (exec env load st) := by
   simp [compareDeviceP, loadDeviceP, getCompareP, errRet, exec]
@@ -177,7 +196,7 @@ theorem linux_host_blocks (env : Env) (h : WrongHost .linux [env.cfg.name] env.d
     intro hist s hd
     have := h _ rfl hist env.cfg.name (by simp)
     simpa [hostIs, hd] using this
-  simp only [linuxLoadDeviceWith, exec]
+  simp only [linuxLoadDeviceWith, linuxPreBanner, linuxPostBanner, exec]
   repeat (first | exact hb _ | apply exec_nr_status | apply sendStep_nr_status)
 
 /-! ### PAN-OS: the name that logged in is one of the name list -/
@@ -185,7 +204,9 @@ theorem linux_host_blocks (env : Env) (h : WrongHost .linux [env.cfg.name] env.d
 theorem panLoginBody_name (env : Env) (n : String) (st : St)
     (h : (exec env (panLoginBody n) st).status.isRunning = true) :
     (exec env (panLoginBody n) st).devName = n := by
-  simp only [panLoginBody, errRet, exec] at h ⊢
+  simp only [panLoginBody, errRet, exec_seq, exec_call, exec_block, exec_note] at h ⊢
+  generalize exec env (Prog.check _ _ _ _) _ = x at h ⊢
+  simp only [exec] at h ⊢
   split
   · rfl
   · rename_i hnr
@@ -199,7 +220,7 @@ theorem tryNames_devName (env : Env) (names : List String) :
   | nil =>
     intro st h
     simp only [tryNames, exec] at h
-    split at h <;> simp_all [Status.isRunning]
+    split at h <;> simp_all
   | cons n ns ih =>
     intro st h
     simp only [tryNames, exec] at h ⊢
@@ -227,22 +248,26 @@ compare `<hostname>` with the name that logged in. -/
 theorem panLoadSuffix_blocks (env : Env) (h : WrongHost .panos env.cfg.names env.dev) (st : St)
     (hn : st.status.isRunning = true → st.devName ∈ env.cfg.names) :
     (exec env panLoadSuffix st).status.isRunning = false := by
-  simp only [panLoadSuffix, panCheckDeviceName, errRet, exec]
+  simp only [panLoadSuffix, panCheckDeviceName, errRet, exec_seq, exec_call, exec_block, exec_note,
+    exec_send]
   cases hr : st.status.isRunning with
-  | false => simp [sendStep, hr]
+  | false =>
+    rw [sendStep_nr env _ _ st hr]
+    exact exec_nr_status env _ _ (exec_nr_status env _ _ hr)
   | true =>
+    have hs : st.status = .running := Status.isRunning_iff.mp hr
     have hmem := hn hr
-    simp only [sendStep, hr, if_true]
+    rw [sendStep_running env _ _ st hs]
     cases hd : env.dev st.trace panConf with
-    | fault w => simp [faultStatus, Status.isRunning]
-    | text s => simp [hr, Status.isRunning]
-    | ha a b c => simp [hr, Status.isRunning]
-    | ids l => simp [hr, Status.isRunning]
+    | fault w => simp [faultStatus, exec]
+    | text s => simp [exec, hs]
+    | ha a b c => simp [exec, hs]
+    | ids l => simp [exec, hs]
     | conf hname vs =>
       have := h _ rfl st.trace st.devName hmem
       simp only [panConf] at hd
       simp only [hostIs, hd] at this
-      simp [hr, Status.isRunning, this]
+      simp [exec, hs, this]
 
 theorem panos_host_blocks (env : Env) (h : WrongHost .panos env.cfg.names env.dev) (gc : Prog) :
     (exec env gc (exec env (panLoadDevice env.cfg) {})).status.isRunning = false := by
@@ -268,29 +293,31 @@ theorem haOK_eq (r : Reply) : haOK r = haActive r := by
 
 theorem panLoginBody_blocks (env : Env) (h : HaPassive env.dev) (n : String) (st : St) :
     (exec env (panLoginBody n) st).status.isRunning = false := by
-  simp only [panLoginBody, errRet, exec]
-  apply exec_nr_status
+  simp only [panLoginBody, errRet, exec_seq, exec_call, exec_block, exec_note]
   apply exec_nr_status
   -- state before checkHA
   generalize exec env panGetAPIKey st = x
-  simp only [panCheckHA, exec]
+  simp only [panCheckHA, exec_seq, exec_call, exec_block, exec_note, exec_send]
   cases hr : x.status.isRunning with
-  | false => simp [sendStep, hr]
+  | false =>
+    rw [sendStep_nr env _ _ x hr]
+    exact exec_nr_status env _ _ hr
   | true =>
-    simp only [sendStep, hr, if_true]
+    have hs : x.status = .running := Status.isRunning_iff.mp hr
+    rw [sendStep_running env _ _ x hs]
     have hp := h x.trace
     rw [← haOK_eq] at hp
     simp only [panHaQuery] at hp
     simp only [panHa]
     cases hd : env.dev x.trace
         (.lit "type=op&cmd=<show><high-availability><state/></high-availability></show>") with
-    | fault w => simp [faultStatus, hr, haOK, Status.isRunning]
-    | text s => simp [hr, haOK, Status.isRunning]
-    | conf a b => simp [hr, haOK, Status.isRunning]
-    | ids l => simp [hr, haOK, Status.isRunning]
+    | fault w => simp [faultStatus, exec, hs, haOK]
+    | text s => simp [exec, hs, haOK]
+    | conf a b => simp [exec, hs, haOK]
+    | ids l => simp [exec, hs, haOK]
     | ha a b c =>
       rw [hd] at hp
-      simp [hr, hp, Status.isRunning]
+      simp [exec, hs, hp]
 
 theorem tryNames_blocks (env : Env) (body : String → Prog)
     (hb : ∀ n st, (exec env (body n) st).status.isRunning = false) (names : List String) :
@@ -299,7 +326,7 @@ theorem tryNames_blocks (env : Env) (body : String → Prog)
   | nil =>
     intro st
     simp only [tryNames, exec]
-    split <;> simp_all [Status.isRunning]
+    split <;> simp_all
   | cons n ns ih =>
     intro st
     simp only [tryNames, exec]
@@ -392,19 +419,21 @@ theorem panLoadSuffix_reply (env : Env) (st : St)
     (hr : (exec env panLoadSuffix st).status.isRunning = true) :
     ∃ hist h vs, env.dev hist panConfQuery = .conf h vs ∧ (exec env panLoadSuffix st).reply = .conf h vs := by
   have hrun : st.status.isRunning = true := running_before env _ st hr
-  simp only [panLoadSuffix, panCheckDeviceName, errRet, exec] at hr ⊢
-  simp only [sendStep, hrun, if_true] at hr ⊢
+  have hs : st.status = .running := Status.isRunning_iff.mp hrun
+  simp only [panLoadSuffix, panCheckDeviceName, errRet, exec_seq, exec_call, exec_block, exec_note,
+    exec_send] at hr ⊢
+  rw [sendStep_running env _ _ st hs] at hr ⊢
   cases hd : env.dev st.trace panConf with
-  | fault w => simp [hd, faultStatus, Status.isRunning] at hr
-  | text s => simp [hd, hrun, Status.isRunning] at hr
-  | ha a b c => simp [hd, hrun, Status.isRunning] at hr
-  | ids l => simp [hd, hrun, Status.isRunning] at hr
+  | fault w => simp [hd, faultStatus, exec] at hr
+  | text s => simp [hd, hs, exec] at hr
+  | ha a b c => simp [hd, hs, exec] at hr
+  | ids l => simp [hd, hs, exec] at hr
   | conf hname vs =>
     refine ⟨st.trace, hname, vs, hd, ?_⟩
-    simp only [hd, hrun] at hr ⊢
+    simp only [hd] at hr ⊢
     by_cases hc : hname = st.devName
-    · simp [hc]
-    · simp [hc, Status.isRunning] at hr
+    · simp [hc, exec, hs]
+    · simp [hc, exec, hs] at hr
 
 theorem panUnmarked_ne (cfg : Cfg) (vs : List (String × String))
     (h : ∃ v ∈ vs, v.1 ∈ cfg.targetVsys ∧ cfg.isMarked v.2 = false) : panUnmarked cfg vs ≠ [] := by
